@@ -2,7 +2,7 @@
 // Unit leases — structure/guid.rs : GuidPrefix, EntityKind, EntityId, GUID (extracted text) with R2
 // template impls for the derives.  derive(Ord) on a struct = lexicographic order of the fields in
 // declaration order; on `[u8; N]` = lexicographic order of the bytes.  The exec comparison bodies
-// are external_body (they stand for the derive expansion); their specs are written out below so
+// are assumed, not verified (they stand for the derive expansion); their specs are written out below so
 // that the BTreeMap key order can be used, and the prefix-range contract
 //      GUID::new(p, EntityId::MIN) ..= GUID::new(p, EntityId::MAX)  contains exactly the GUIDs with prefix p
 // is PROVED from them (lemma_prefix_range), not assumed.
